@@ -16,6 +16,12 @@ pub struct SCase {
     pub s: String,
     /// (start bound kind, end bound kind, start selector, end selector); kinds 0 incl 1 excl 2 unbounded
     pub ranges: Vec<(u8, u8, u16, u16)>,
+    /// strings (unit, repetitions) converted through the same scratch buffer before `s`
+    #[serde(default)]
+    pub prev: Vec<(String, u16)>,
+    /// initial capacity of the (non-empty) scratch buffer handed to Utf32Str::new
+    #[serde(default)]
+    pub buf_cap: u16,
 }
 
 fn blocks() -> BoxedStrategy<String> {
@@ -28,6 +34,10 @@ fn blocks() -> BoxedStrategy<String> {
         5 => any::<char>().prop_map(|c| c.to_string()),
     ]
     .boxed()
+}
+
+pub fn blocks_pub() -> BoxedStrategy<String> {
+    blocks()
 }
 
 fn reference(s: &str) -> (bool, Vec<char>) {
@@ -92,7 +102,7 @@ impl Check for C17 {
         "C17"
     }
     fn rule(&self) -> String {
-        "strings of 0-40 building blocks: ASCII, CR/LF in every arrangement (\\r, \\n, \\r\\n, \\n\\r, \\r\\r\\n), base+combining marks, lone marks, ZWJ emoji sequences, skin-tone modifiers, regional-indicator pairs and odd runs, Hangul L/V/T jamo, prepend characters, variation selectors, control/boundary code points, arbitrary chars; plus generated valid slice ranges of all nine bound-kind combinations. Reference: is_ascii && !contains(CRLF) => Ascii(bytes) else first code point per extended grapheme cluster (unicode-segmentation) with CR LF -> LF; all constructors (Utf32Str::new, From<&str>, From<String>, From<Box<str>>, From<Cow> both arms), len/is_empty/is_ascii/get/chars (both directions)/slice/slice_u32/Display compared. Non-trivial: the string has a multi-code-point cluster or a CR LF pair. Distinct by case hash.".into()
+        "strings of 0-40 building blocks: ASCII, CR/LF in every arrangement (\\r, \\n, \\r\\n, \\n\\r, \\r\\r\\n), base+combining marks, lone marks, ZWJ emoji sequences, skin-tone modifiers, regional-indicator pairs and odd runs, Hangul L/V/T jamo, prepend characters, variation selectors, control/boundary code points, arbitrary chars; 15% of the strings are ASCII lines of 60-300 bytes with CR / LF / CR LF written at generated offsets, half of them at the last byte of a 16/32/64-byte block (+-2); in 30% of the cases 1-3 earlier strings (up to 2600 repetitions of a unit, i.e. beyond 1024 chars) are converted through the same scratch buffer first, and the buffer may start with a capacity of 1000-5000; plus generated valid slice ranges of all nine bound-kind combinations. Reference: is_ascii && !contains(CRLF) => Ascii(bytes) else first code point per extended grapheme cluster (unicode-segmentation) with CR LF -> LF; all constructors (Utf32Str::new, From<&str>, From<String>, From<Box<str>>, From<Cow> both arms), len/is_empty/is_ascii/get/chars (both directions)/slice/slice_u32/Display compared. Non-trivial: the string has a multi-code-point cluster or a CR LF pair. Distinct by case hash.".into()
     }
     fn assumptions(&self) -> Vec<String> {
         vec!["cluster boundaries are those of the unicode-segmentation crate (the same crate the library uses; trusted base for UAX #29)".into()]
@@ -115,7 +125,34 @@ impl Check for C17 {
             25 => proptest::collection::vec(ascii_block, 0..=40),
             20 => proptest::collection::vec(ascii_no_lf, 0..=40),
         ];
-        (blocks, proptest::collection::vec((0u8..3, 0u8..3, any::<u16>(), any::<u16>()), 1..=6)).prop_map(|(b, ranges)| SCase { s: b.concat(), ranges }).boxed()
+        // long ASCII lines with CR / LF placed around every offset (block-wise scanners, SIMD tails)
+        let long_ascii = (proptest::collection::vec(prop_oneof![8 => Just('a'), 1 => Just(' '), 1 => proptest::char::range('\u{20}', '\u{7e}')], 60..=300), proptest::collection::vec((any::<u16>(), proptest::sample::select(vec!["\r\n", "\r", "\n", "\r\n", "\n\r", "\r\r\n"]), -2i32..=2, any::<bool>()), 1..=3)).prop_map(|(mut cs, ins)| {
+            for (sel, what, delta, align) in ins {
+                let n = cs.len();
+                // either anywhere, or right at the end of a 16/32/64-byte block (+- 2)
+                let pos = if align {
+                    let blk = [16usize, 32, 64][sel as usize % 3];
+                    let k = 1 + map_idx(sel, (n / blk).max(1));
+                    ((k * blk) as i32 - 1 + delta).clamp(0, n as i32) as usize
+                } else {
+                    map_idx(sel, n + 1)
+                };
+                let w: Vec<char> = what.chars().collect();
+                // overwrite (keeps later offsets where they are) when it fits, else insert
+                if pos + w.len() <= n {
+                    cs[pos..pos + w.len()].copy_from_slice(&w);
+                } else {
+                    cs.splice(pos.min(n)..pos.min(n), w);
+                }
+            }
+            vec![cs.into_iter().collect::<String>()]
+        });
+        let blocks = prop_oneof![85 => blocks, 15 => long_ascii];
+        let prev = prop_oneof![
+            70 => Just(vec![]),
+            30 => proptest::collection::vec((prop_oneof![3 => proptest::sample::select(vec!["é", "a\r\n", "e\u{301}x", "漢字", "ab"]).prop_map(|s| s.to_string()), 1 => crate::c17::blocks_pub()], prop_oneof![2 => 1u16..40, 1 => 300u16..700, 1 => 1025u16..2600]), 1..=3),
+        ];
+        (blocks, proptest::collection::vec((0u8..3, 0u8..3, any::<u16>(), any::<u16>()), 1..=6), prev, prop_oneof![3 => Just(0u16), 1 => 1000u16..5000]).prop_map(|(b, ranges, prev, buf_cap)| SCase { s: b.concat(), ranges, prev, buf_cap }).boxed()
     }
     fn run(&self, case: &SCase) -> Outcome {
         let mut out = Outcome::default();
@@ -137,9 +174,30 @@ impl Check for C17 {
         if s.is_empty() {
             out.label("empty");
         }
+        if s.len() > 64 {
+            out.label("longer-than-64-bytes");
+            if s.as_bytes().windows(2).enumerate().any(|(i, w)| w == b"\r\n" && (i + 1) % 16 == 0) {
+                out.label("CRLF-straddles-a-16-byte-boundary");
+            }
+        }
+        if case.prev.iter().any(|(u, r)| u.chars().count() * *r as usize > 1024) {
+            out.label("scratch-buffer-reused-after-more-than-1024-chars");
+        } else if !case.prev.is_empty() {
+            out.label("scratch-buffer-reused");
+        }
         let r = guarded(|| {
             let mut fails: Vec<(String, String)> = vec![];
-            let mut buf = vec!['x'; 3];
+            let mut buf = Vec::with_capacity(case.buf_cap as usize);
+            buf.extend(['x'; 3]);
+            // earlier conversions through the same scratch buffer must not leak into later ones
+            for (unit, rep) in &case.prev {
+                let t = unit.repeat(*rep as usize);
+                let (ea, e) = reference(&t);
+                let u = Utf32Str::new(&t, &mut buf);
+                if u.is_ascii() != ea || content(u) != e {
+                    fails.push(("buffer-reuse".into(), format!("Utf32Str::new on a reused buffer: {:?} x {rep} gives {} chars (ascii form: {}), expected {} (ascii form: {ea})", unit, u.len(), u.is_ascii(), e.len())));
+                }
+            }
             let mut forms: Vec<(&'static str, Utf32String)> = vec![];
             {
                 let u = Utf32Str::new(s, &mut buf);
